@@ -914,6 +914,14 @@ func (c *evalCtx) call(x *ast.CallExpr) *sv {
 			return boolSV(fmt.Sprintf("(and (not (= (ityp %s) 0)) (= (iint %s) %s))", c.rv1(v), c.rv1(v), sym))
 		}
 		return boolSV(fmt.Sprintf("(= %s %s)", c.rv1(v), sym))
+	case "sentinel":
+		// sentinel("io.EOF"): the value of a well-known error variable
+		need(1)
+		bl, ok := args[0].(*ast.BasicLit)
+		if !ok {
+			c.fail("sentinel needs a string literal")
+		}
+		return &sv{sort: "iface", ty: types.Universe.Lookup("error").Type(), terms: []string{c.t.globalConst(unquote(bl.Value), "iface", true)}}
 	case "wellformed":
 		need(1)
 		v := c.eval(args[0])
@@ -1403,6 +1411,39 @@ func findPattern(body, qv string) string {
 		}
 	}
 	_ = best
+	if len(all) == 0 {
+		// fallback: heap cell terms whose index is an arithmetic expression over the bound variable (composite elements:
+		// index = off + i*stride + field); the same shape is produced for the program's own accesses
+		for i := 0; i < len(body); i++ {
+			if !strings.HasPrefix(body[i:], "(select (select (select ") {
+				continue
+			}
+			d, j := 0, i
+			for ; j < len(body); j++ {
+				if body[j] == '(' {
+					d++
+				} else if body[j] == ')' {
+					d--
+					if d == 0 {
+						break
+					}
+				}
+			}
+			if j >= len(body) {
+				break
+			}
+			term := body[i : j+1]
+			args := splitSexprArgs(term)
+			if len(args) != 3 {
+				continue
+			}
+			idx := args[2]
+			if strings.Contains(idx, qv) && !strings.Contains(idx, "select") && !strings.Contains(idx, "ite") && !strings.Contains(args[1], qv) && !seen[term] {
+				seen[term] = true
+				all = append(all, term)
+			}
+		}
+	}
 	// alternatives: every minimal candidate (none containing another candidate), at most 4
 	var out []string
 	for _, a := range all {
